@@ -820,9 +820,18 @@ def inplace_probe(w):
 
 
 # ============================================================================================ the run
-def classify_tags(ctx, tags, spec, what_prefix=''):
+def classify_tags(ctx, tags, spec, what_prefix='', info=None):
     """generic classification of one Coq case"""
     tags = set(tags)
+    # guard-false input on which the implementation REJECTS (= the specification: NaN bounds / duplicate names are
+    # refused) while the faithful model of the listed defect accepts: the defect was repaired, not an alarm
+    if info is not None and info.get('accepted') is False:
+        if 1 in tags and 201 in tags and spec.get('k') in ('create', 'replace'):
+            tags.discard(1)
+            ctx.coverage['spec_conformant_on_guard_false'] = ctx.coverage.get('spec_conformant_on_guard_false', 0) + 1
+        if 3 in tags and ({203, 204} & tags) and spec.get('k') in ('rvs_add', 'rvs_single'):
+            tags.discard(3)
+            ctx.coverage['spec_conformant_on_guard_false'] = ctx.coverage.get('spec_conformant_on_guard_false', 0) + 1
     status = 'ok'
     oracle = sorted(t for t in tags if t in ORACLE_TAGS)
     corr = sorted(t for t in tags if t in CORR_TAGS)
@@ -947,8 +956,8 @@ def wf_part(ctx, tabs, B, fns):
         npairs += 1
     verdicts = ctx.run_cases('wf', IMPORTS, 'case', terms, 'verdict', shard=150)
     stats = {'ok': 0, 'known': 0, 'violation': 0, 'broken': 0}
-    for s, tags in zip(kept, verdicts):
-        stats[classify_tags(ctx, tags, s)] += 1
+    for s, tags, inf in zip(kept, verdicts, infos):
+        stats[classify_tags(ctx, tags, s, info=inf)] += 1
     by_kind = {}
     for s, i, v in zip(kept, infos, verdicts):
         d = by_kind.setdefault(s['k'], {'n': 0, 'accepted': 0, 'guard_false': 0})
